@@ -114,7 +114,9 @@ def oracle(case, impl):
     return out
 
 
-NAMES = ['frames', 'frames_total', 'fps', 'cpu', 'secret', 'det_count', 'a', 'ab', 'abc', 'b[1]', 'x-y', 'Filter_fps', 'm.n', '']
+NAMES = ['frames', 'frames_total', 'fps', 'cpu', 'secret', 'det_count', 'a', 'ab', 'abc', 'b[1]', 'x-y', 'Filter_fps', 'm.n', '',
+         # names that extend / are extended by names matching the patterns below (prefix / suffix / infix confusions)
+         'Filter_fps_by_user', 'frames_total_2', 'abcd', 'fpss', 'xfps', 'a1c_more', 'secret2', 'my_secret', 'det_', 'x-yz', 'FPS', 'Frames']
 PATS = ['*', 'frames*', '*_total', 'f?s', 'a*', '[ab]*', '[!a]*', 'det_*', '*fps', 'a[a-c]', 'secret', 'x-?', '[', 'b[[]1]', '*.*', 'nomatch', '[]a]b', 'a?c']
 
 
